@@ -121,6 +121,26 @@ def run(ctx):
                 yield ("helper", {"fn": "config_set", "a": rng.randrange(0, 8), "b": rng.randrange(0, 4), "items": its})
                 yield ("helper", {"fn": "config_del", "a": rng.randrange(0, 8), "b": rng.randrange(0, 4), "items": its})
                 yield ("helper", {"fn": "config_poll", "a": rng.choice((0, 1, 2, 7)), "b": rng.choice((0, 1, 255, 256, 65535)), "items": its})
+        # the same key more than once in one list (same name twice, same ID twice, by name and by ID): every given item must appear, in order
+        for rep in range(12 if not ctx.thorough else 200):
+            e, e2 = rng.sample(db, 2)
+            vs = boundary_values(e["t"], rng)
+            pat = rng.choice(("nn", "ii", "ni", "nxn", "ixi", "many"))
+            if pat == "nn":
+                its = [item(e, True, vs[0]), item(e, True, vs[-1])]
+            elif pat == "ii":
+                its = [item(e, False, vs[0]), item(e, False, vs[-1])]
+            elif pat == "ni":
+                its = [item(e, True, vs[1]), item(e, False, vs[0])]
+            elif pat == "nxn":
+                its = [item(e, True, vs[0]), item(e2, True, boundary_values(e2["t"], rng)[1]), item(e, True, vs[2])]
+            elif pat == "ixi":
+                its = [item(e, False, vs[0]), item(e2, False, boundary_values(e2["t"], rng)[1]), item(e, False, vs[2])]
+            else:
+                its = [item(e, bool(k % 2), vs[k % len(vs)]) for k in range(rng.choice((5, 64)))]
+            yield ("helper", {"fn": "config_set", "a": rng.randrange(0, 8), "b": rng.randrange(0, 4), "items": its})
+            yield ("helper", {"fn": "config_del", "a": rng.randrange(0, 8), "b": rng.randrange(0, 4), "items": its})
+            yield ("helper", {"fn": "config_poll", "a": rng.choice((0, 1, 2, 7)), "b": rng.choice((0, 1, 255)), "items": its})
         for layers in range(0, 8):
             for txn in range(0, 4):
                 e = rng.choice(db)
